@@ -112,6 +112,27 @@ CHECKS = {
         "trusted: the type model mc/ref/c06_model.py (selftested); not demanded: is_nullable, internal_size, names of unaliased expressions, precision of REAL/TIME",
         "explicit enumeration of (statement x read point) states with self-loop checks, i.e. bounded exhaustive exploration of the real cursor against a type reference model",
     ),
+    "C11": (
+        "E2-product",
+        "exploration",
+        "complete enumeration of JSON documents up to the stated depth/width over a 10-atom alphabet (all documents of depth<=1/width<=2, all chains of 2-3 container frames, the depth-2 closure in thorough) x all paths of length<=3 over 8 steps (present, case-variant, missing, out-of-range, wrong-kind) x 6 access syntaxes x value ops (casts, UPPER/LOWER/TRIM, ARRAY_SIZE) x 31 operator contexts x sources (VARIANT/OBJECT/ARRAY columns, PARSE_JSON literal, constructors, LATERAL FLATTEN, SPLIT), each compared with Python navigation of the json.loads-ed document",
+        "trusted: mc/ref/json_nav.py (selftested against Snowflake documentation examples); not demanded: number->BOOLEAN, uncast contexts over a mismatching kind, FLATTEN INDEX/KEY/PATH, result types of constructors",
+        "bounded exhaustive enumeration (finite input product) on the real code against a JSON navigation reference",
+    ),
+    "C12": (
+        "E2-product",
+        "exploration",
+        "complete enumeration of target multisets (<=3 rows over keys {1,2,NULL}, duplicates allowed) x source sets (distinct keys, optional NULL key, so every merge is deterministic) x all valid clause lists of <=3 clauses (MATCHED->UPDATE/DELETE, NOT MATCHED->INSERT, with conditions on source/target/both) x 24 spellings (keyword/identifier case, aliases, subquery source, qualified names) x SET/INSERT forms, plus NOT NULL failure, helper-table observation, MERGE inside BEGIN..ROLLBACK/COMMIT and two merges per session; target, source, bystanders (raw DuckDB), status row, rowcount, atomicity and session residue compared with a reference MERGE semantics",
+        "trusted: mc/ref/merge_ref.py built on the 3-valued-logic operators of sql3vl (selftested against the Snowflake documentation example); not demanded: order of status columns, description after MERGE (C06), exception class (C07), nondeterministic merges",
+        "bounded exhaustive enumeration (finite input product) on the real code against a reference MERGE semantics",
+    ),
+    "C14": (
+        "E1-bfs",
+        "model_checking",
+        "explicit-state search: initial states are the complete product flags (2x2) x storage (memory, fresh db_path, db_path with a previous instance's files) x prior state (nothing, database, database+schema); transitions are connect() calls over the 4x4 argument alphabet (database/schema absent or in three letter cases, information_schema), sequences of 2 (quick) / 3 (thorough) connects, each history on a fresh instance, deduplicated on model state + DuckDB session context + first-statement outcomes; every connect is compared with an option table written from the property (never raises, creates exactly what the flags allow, reports upper-cased names, usable context iff the objects exist, nothing else disturbed, <DB>.db files)",
+        "trusted: raw DuckDB catalog and directory listing as ground truth; not demanded: whether create_database_on_connect=False attaches an existing file (taken from ground truth), CURRENT_* when there is no context",
+        "explicit-state model checking (bounded BFS over connect sequences from the complete configuration product) against an option-table reference model",
+    ),
 }
 
 NOT_BUILT = "check not built yet in this round (planned per DESIGN.md §3); no claim is made"
